@@ -514,6 +514,8 @@ class AbsInt:
                         self.hooks.on_assign(self, a[0], a[2], st)
                 else:
                     self.assign(st, a[0], ('itv', -INF, INF))
+                    if self.hooks is not None:
+                        self.hooks.on_object_assign(self, a[0], a[2], st)
             else:
                 st.forget(a[0])
                 self.declare(st, a[0], a[1])
@@ -539,6 +541,8 @@ class AbsInt:
                 self.assign(st, x, v)
                 if self.hooks is not None:
                     self.hooks.on_assign(self, x, rhs, st)
+            elif self.hooks is not None:
+                self.hooks.on_object_assign(self, x, rhs, st)
             return [st], [], []
         if k == 'expr':
             self.visit_expr(a[0], st)
@@ -705,6 +709,10 @@ class Hooks:
         pass
 
     def on_assign(self, ai, x, rhs, st):
+        pass
+
+    def on_object_assign(self, ai, x, rhs, st):
+        """assignment to a variable of non-integral type (pointer, object)"""
         pass
 
     def on_index(self, ai, e, st):
